@@ -199,7 +199,7 @@ func runC20(c *Ctx) {
 		}
 		nTrue++
 		g, path := Guarded(mc.Blocks[0], ret, allowed, nil)
-		c.Check(g && len(allowed) >= 3, "R1", "matchesCurrent:recognised-only-if-ours", p.InstrPos(ret), "a hook counts as ours only if it equals the current script, is empty, or equals a historical script", "a hook can be recognised as generated by Git LFS through a condition other than equality with the current/historical scripts or emptiness (e.g. a looser notion of `blank`): a user's hook would be overwritten or deleted: "+path)
+		c.Check(g && nonVacuous(allowed), "R1", "matchesCurrent:recognised-only-if-ours", p.InstrPos(ret), "a hook counts as ours only if it equals the current script, is empty, or equals a historical script", "a hook can be recognised as generated by Git LFS through a condition other than equality with the current/historical scripts or emptiness (e.g. a looser notion of `blank`): a user's hook would be overwritten or deleted: "+path)
 	}
 	c.AtLeast("R1", "positive recognitions in matchesCurrent", nTrue, 2)
 	// ---- R2 whole file ----------------------------------------------------------------------------
